@@ -312,6 +312,12 @@ func init() {
 			frame.StdoutIsOutput = false
 			g.Static = append(g.Static, frame.MapRanges(env.Prog, reach, mapRangeJustifications(env), checkJustification(env))...)
 			frame.StdoutIsOutput = true
+			if fn := env.Prog.Func("pkg/prebuild/directive", "(Stack).Apply"); fn != nil {
+				g.addFunc(env, fn)
+				g.Static = append(g.Static, frame.WalksArgListInOrder(env.Prog, fn, "opt", "ArgList", []string{"github.com/roddhjav/apparmor.d/pkg/util.RemoveDuplicate"}))
+			} else {
+				g.OutOfDate = append(g.OutOfDate, "pkg/prebuild/directive:(Stack).Apply")
+			}
 			g.Unverified = []string{
 				"that no #aa: directive remains after the build (Run scans the original text once; Stack.Apply inserts foreign text)",
 				"the cleaning of a stacked profile body by multi-line regexps; that the host profile's own rules stay as they were",
